@@ -681,32 +681,44 @@ def depol_case(c_sys, mode, name, obj, p, g):
     d = c_sys.dim
     mat = lambda v: sum(x * b for x, b in zip(v, B))  # noqa
     X = obj if obj is not None else generate_qoperation(mode, name, c_sys)
-    try:
-        Y = DepolarizedQOperationGenerationSetting(c_sys, X if obj is not None else (mode, name), p).generate()
-    except Exception as e:  # noqa
-        return [("raises", f"{name}, p={p}: {type(e).__name__}: {e}")]
+    # the two routes that build a depolarised object: the generation setting used by the simulations, and (for catalogue
+    # names) qoperation_typical.generate_qoperation_depolarized
+    routes = [("setting", lambda: DepolarizedQOperationGenerationSetting(c_sys, X if obj is not None else (mode, name), p).generate())]
+    if obj is None:
+        from quara.objects.qoperation_typical import generate_qoperation_depolarized
+        routes.append(("typical", lambda: generate_qoperation_depolarized(mode, name, c_sys, p)))
     out = []
-    worst = 0.0
-    if mode == "state":
-        worst = np.abs(mat(Y.vec) - ((1 - p) * mat(X.vec) + p * np.eye(d) / d)).max()
-    elif mode == "povm":
-        # measuring after depolarisation: tr(E'_x rho) = (1-p) tr(E_x rho) + p tr(E_x)/d
-        for vy, vx in zip(Y.vecs, X.vecs):
-            E = mat(vx)
-            worst = max(worst, np.abs(mat(vy) - ((1 - p) * E + p * np.trace(E) / d * np.eye(d))).max())
-    else:
-        hy = [Y.hs] if mode == "gate" else list(Y.hss)
-        hx = [X.hs] if mode == "gate" else list(X.hss)
-        for a, b in zip(hy, hx):
-            for _ in range(4):
-                rho = qobj.rand_density(g, d, rank=int(g.integers(1, d + 1)))
-                out_x = mat(b @ qobj.vec_of(c_sys, rho))
-                out_y = mat(a @ qobj.vec_of(c_sys, rho))
-                worst = max(worst, np.abs(out_y - ((1 - p) * out_x + p * np.trace(out_x) * np.eye(d) / d)).max())
-    if worst > 1e-10:
-        out.append(("mixture", f"{name} with rate {p} is not (1-p)·X + p·X_mixed (max deviation {worst:.3g} on the matrix form)"))
-    if not Y.is_physical():
-        out.append(("not-physical", f"{name} with rate {p} is not physical"))
+    Y = None
+    for route, make in routes:
+        try:
+            Yr = make()
+        except Exception as e:  # noqa
+            out.append((f"raises/{route}", f"{name}, p={p}: {type(e).__name__}: {e}"))
+            continue
+        Y = Y if Y is not None else Yr
+        worst = 0.0
+        if mode == "state":
+            worst = np.abs(mat(Yr.vec) - ((1 - p) * mat(X.vec) + p * np.eye(d) / d)).max()
+        elif mode == "povm":
+            # measuring after depolarisation: tr(E'_x rho) = (1-p) tr(E_x rho) + p tr(E_x)/d
+            for vy, vx in zip(Yr.vecs, X.vecs):
+                E = mat(vx)
+                worst = max(worst, np.abs(mat(vy) - ((1 - p) * E + p * np.trace(E) / d * np.eye(d))).max())
+        else:
+            # gate / measurement process: every output is mixed with the maximally mixed state of the same weight
+            hy = [Yr.hs] if mode == "gate" else list(Yr.hss)
+            hx = [X.hs] if mode == "gate" else list(X.hss)
+            for a, b in zip(hy, hx):
+                for _ in range(4):
+                    rho = qobj.rand_density(g, d, rank=int(g.integers(1, d + 1)))
+                    out_x = mat(b @ qobj.vec_of(c_sys, rho))
+                    out_y = mat(a @ qobj.vec_of(c_sys, rho))
+                    worst = max(worst, np.abs(out_y - ((1 - p) * out_x + p * np.trace(out_x) * np.eye(d) / d)).max())
+        if worst > 1e-10:
+            out.append((f"mixture/{route}" if route != "setting" else "mixture",
+                        f"{name} with rate {p} ({route}) is not (1-p)·X + p·X_mixed (max deviation {worst:.3g} on the matrix form)"))
+        if not Yr.is_physical():
+            out.append((f"not-physical/{route}" if route != "setting" else "not-physical", f"{name} with rate {p} ({route}) is not physical"))
     return out
 
 
